@@ -92,7 +92,9 @@ mm_new(int cfg)
         if (!m)
                 harness_fail("alloc_mb_mgr returned NULL");
         mm_init_arch(m, g_cfgs[cfg].arch);
-        if (imb_get_errno(m) != 0 || m->used_arch == IMB_ARCH_NONE) {
+        /* the manager's own field: imb_get_errno() may fall back to the process-wide mirror, which another thread's
+         * failing call can set (known finding KF-ERRNO-GLOBAL-MIRROR) */
+        if (m->imb_errno != 0 || m->used_arch == IMB_ARCH_NONE) {
                 mcall("free_mb_mgr", (void *) free_mb_mgr, 1, (uint64_t) m);
                 return NULL;
         }
